@@ -22,7 +22,28 @@ type itv struct {
 	lo, hi  int64
 	nonZero bool   // additionally known != 0
 	why     string // short justification of the tightest bound
+	// symbolic upper bound: value <= len(symVal) + symOff (symKey = exprKey(symVal))
+	hasSym bool
+	symKey string
+	symOff int64
+	symVal ssa.Value
 }
+
+func (a itv) withSym(v ssa.Value, off int64) itv {
+	k := exprKey(v)
+	if k == "" {
+		return a
+	}
+	a.hasSym, a.symKey, a.symOff, a.symVal = true, k, off, v
+	return a
+}
+
+func (a itv) dropSym() itv {
+	a.hasSym, a.symKey, a.symOff, a.symVal = false, "", 0, nil
+	return a
+}
+
+func (a itv) isPoint() bool { return a.lo == a.hi && a.lo != negInf && a.lo != posInf }
 
 func top() itv               { return itv{lo: negInf, hi: posInf} }
 func point(c int64) itv      { return itv{lo: c, hi: c, nonZero: c != 0, why: "constant"} }
@@ -45,8 +66,31 @@ func (a itv) String() string {
 	return s
 }
 
+// symJoin computes the symbolic bound of a join. minLen gives a proven lower
+// bound of len(v) so that a constant can be compared with len(v)+off.
+func symJoin(a, b itv, minLen func(ssa.Value) int64) (ssa.Value, int64, bool) {
+	switch {
+	case a.hasSym && b.hasSym && a.symKey == b.symKey:
+		return a.symVal, max64(a.symOff, b.symOff), true
+	case a.hasSym && !b.hasSym && b.hi != posInf && minLen != nil:
+		if minLen(a.symVal)+a.symOff >= b.hi {
+			return a.symVal, a.symOff, true
+		}
+	case b.hasSym && !a.hasSym && a.hi != posInf && minLen != nil:
+		if minLen(b.symVal)+b.symOff >= a.hi {
+			return b.symVal, b.symOff, true
+		}
+	}
+	return nil, 0, false
+}
+
+var joinMinLen func(ssa.Value) int64
+
 func join(a, b itv) itv {
 	r := itv{lo: min64(a.lo, b.lo), hi: max64(a.hi, b.hi)}
+	if v, off, ok := symJoin(a, b, joinMinLen); ok {
+		r = r.withSym(v, off)
+	}
 	r.nonZero = a.excludesZero() && b.excludesZero()
 	r.why = a.why
 	if b.why != "" && b.why != a.why {
@@ -57,6 +101,14 @@ func join(a, b itv) itv {
 
 func meet(a, b itv) itv {
 	r := itv{lo: max64(a.lo, b.lo), hi: min64(a.hi, b.hi), nonZero: a.nonZero || b.nonZero}
+	switch {
+	case a.hasSym && b.hasSym && a.symKey == b.symKey:
+		r = r.withSym(a.symVal, min64(a.symOff, b.symOff))
+	case a.hasSym:
+		r = r.withSym(a.symVal, a.symOff)
+	case b.hasSym:
+		r = r.withSym(b.symVal, b.symOff)
+	}
 	r.why = a.why
 	if b.why != "" {
 		if r.why != "" {
@@ -143,7 +195,14 @@ type rkey struct {
 }
 
 func newRanger(p *Program, ff *fieldFacts) *ranger {
-	return &ranger{p: p, facts: ff, busy: map[rkey]bool{}, memo: map[rkey]itv{}}
+	rg := &ranger{p: p, facts: ff, busy: map[rkey]bool{}, memo: map[rkey]itv{}}
+	joinMinLen = func(v ssa.Value) int64 {
+		if r, ok := rg.lenOf(v, nil, 8); ok {
+			return r.lo
+		}
+		return 0
+	}
+	return rg
 }
 
 func typeRange(t types.Type) itv {
@@ -243,7 +302,7 @@ func (rg *ranger) structural(v ssa.Value, at *ssa.BasicBlock, depth int) itv {
 	case *ssa.Extract:
 		if c, ok := x.Tuple.(*ssa.Call); ok {
 			if callee := c.Call.StaticCallee(); callee != nil && rg.p.isRepoFunc(callee) && len(callee.Blocks) > 0 {
-				return rg.returnRange(callee, x.Index, depth)
+				return rg.translateSym(rg.returnRange(callee, x.Index, depth), callee, c.Common())
 			}
 			if callee := c.Call.StaticCallee(); callee != nil {
 				switch callee.String() {
@@ -355,6 +414,9 @@ func (rg *ranger) phi(x *ssa.Phi, depth int) itv {
 			}
 		}
 		er := rg.rangeAt(e, pred, depth+1)
+		if ec, ok := edgeCond(pred, x.Block()); ok {
+			er = rg.applyCond(e, exprKey(e), er, ec, depth+1) // the branch taken on this edge
+		}
 		if first {
 			r, first = er, false
 		} else {
@@ -400,9 +462,17 @@ func (rg *ranger) binop(x *ssa.BinOp, at *ssa.BasicBlock, depth int) itv {
 	switch x.Op {
 	case token.ADD:
 		r := itv{lo: satAdd(a.lo, b.lo), hi: satAdd(a.hi, b.hi), why: joinWhy(a, b)}
+		if a.hasSym && b.isPoint() {
+			r = r.withSym(a.symVal, a.symOff+b.lo)
+		} else if b.hasSym && a.isPoint() {
+			r = r.withSym(b.symVal, b.symOff+a.lo)
+		}
 		return r
 	case token.SUB:
 		r := itv{lo: satAdd(a.lo, satNeg(b.hi)), hi: satAdd(a.hi, satNeg(b.lo)), why: joinWhy(a, b)}
+		if a.hasSym && b.lo != negInf && b.lo >= 0 {
+			r = r.withSym(a.symVal, a.symOff-b.lo)
+		}
 		if isUnsigned(x.Type()) && r.lo < 0 {
 			// unsigned subtraction may wrap: only nonZero information survives
 			return itv{lo: 0, hi: posInf}
@@ -501,7 +571,10 @@ func (rg *ranger) call(x *ssa.Call, at *ssa.BasicBlock, depth int) itv {
 			r := itv{lo: 0, hi: posInf, why: "len >= 0"}
 			if len(cc.Args) == 1 {
 				if lr, ok := rg.lenOf(cc.Args[0], at, depth); ok {
-					r = meet(r, lr)
+					r = meet(r, lr.dropSym())
+				}
+				if b.Name() == "len" {
+					r = r.withSym(cc.Args[0], 0)
 				}
 			}
 			return r
@@ -527,14 +600,18 @@ func (rg *ranger) call(x *ssa.Call, at *ssa.BasicBlock, depth int) itv {
 		return top()
 	}
 	if rg.p.isRepoFunc(callee) && len(callee.Blocks) > 0 {
-		return rg.returnRange(callee, 0, depth)
+		return rg.translateSym(rg.returnRange(callee, 0, depth), callee, cc)
 	}
 	switch callee.String() {
 	case "strings.Count", "strings.Index", "strings.LastIndex", "bytes.Index":
 		return itv{lo: -1, hi: posInf, why: callee.Name()}
 	case "sort.Search":
 		n := rg.rangeAt(cc.Args[0], at, depth+1)
-		return itv{lo: 0, hi: n.hi, why: "sort.Search in [0,n]"}
+		r := itv{lo: 0, hi: n.hi, why: "sort.Search in [0,n]"}
+		if n.hasSym {
+			r = r.withSym(n.symVal, n.symOff)
+		}
+		return r
 	case "(time.Duration).Milliseconds", "(time.Time).UnixMilli", "(time.Time).Unix":
 		return top()
 	}
@@ -543,6 +620,11 @@ func (rg *ranger) call(x *ssa.Call, at *ssa.BasicBlock, depth int) itv {
 
 // lenOf: known length facts for a slice/string value.
 func (rg *ranger) lenOf(s ssa.Value, at *ssa.BasicBlock, depth int) (itv, bool) {
+	if f, ok := loadedField(s); ok {
+		if n, ok := rg.facts.minLenOfField(f); ok {
+			return itv{lo: n, hi: posInf, why: "validated field length " + f}, true
+		}
+	}
 	switch x := s.(type) {
 	case *ssa.Const:
 		if str, ok := constString(x); ok {
@@ -840,9 +922,15 @@ func (rg *ranger) applyCond(v ssa.Value, key string, r itv, c cond, depth int) i
 		if o.hi != posInf {
 			r = meet(r, itv{lo: negInf, hi: o.hi - 1, why: why})
 		}
+		if o.hasSym {
+			r = meet(r, itv{lo: negInf, hi: posInf}.withSym(o.symVal, o.symOff-1))
+		}
 	case token.LEQ:
 		if o.hi != posInf {
 			r = meet(r, itv{lo: negInf, hi: o.hi, why: why})
+		}
+		if o.hasSym {
+			r = meet(r, itv{lo: negInf, hi: posInf}.withSym(o.symVal, o.symOff))
 		}
 	case token.GTR:
 		if o.lo != negInf {
@@ -882,4 +970,50 @@ func infallibleWrite(c *ssa.Call) bool {
 		}
 	}
 	return false
+}
+
+// translateSym rewrites a symbolic bound expressed over a callee parameter into
+// the caller's argument; bounds over callee-internal values are dropped.
+func (rg *ranger) translateSym(r itv, callee *ssa.Function, cc *ssa.CallCommon) itv {
+	if !r.hasSym {
+		return r
+	}
+	args := cc.Args
+	if cc.IsInvoke() {
+		args = append([]ssa.Value{cc.Value}, args...)
+	}
+	sv := spilledParam(r.symVal)
+	for i, prm := range callee.Params {
+		if sv == ssa.Value(prm) && i < len(args) {
+			return r.withSym(args[i], r.symOff)
+		}
+	}
+	return r.dropSym()
+}
+
+// spilledParam looks through the Alloc that go/ssa creates for a parameter
+// captured by a closure: load(alloc) where the only store is the parameter.
+func spilledParam(v ssa.Value) ssa.Value {
+	u, ok := v.(*ssa.UnOp)
+	if !ok || u.Op != token.MUL {
+		return v
+	}
+	a, ok := u.X.(*ssa.Alloc)
+	if !ok || a.Referrers() == nil {
+		return v
+	}
+	var stored ssa.Value
+	n := 0
+	for _, ref := range *a.Referrers() {
+		if st, ok := ref.(*ssa.Store); ok && st.Addr == a {
+			stored = st.Val
+			n++
+		}
+	}
+	if n == 1 {
+		if prm, ok := stored.(*ssa.Parameter); ok {
+			return prm
+		}
+	}
+	return v
 }
